@@ -13,3 +13,7 @@ OBLIGATIONS = OBLIGATIONS + [K.BLOCK_DATA, K.SEARCH_ORDER, K.INTERVAL_SIBS]
 OBLIGATIONS = OBLIGATIONS + [K.EVERY_VALUE]
 OBLIGATIONS = OBLIGATIONS + [K.MAGICS]
 OBLIGATIONS = OBLIGATIONS + [K.ARG_NAMES]
+OBLIGATIONS = OBLIGATIONS + [K.STREAM_SIBS]
+OBLIGATIONS = OBLIGATIONS + [K.ZOOMCOUNT_SIBS]
+OBLIGATIONS = OBLIGATIONS + [K.PROCESSOR_ARGS]
+OBLIGATIONS = OBLIGATIONS + [K.PROCESS_DATA]
